@@ -42,6 +42,8 @@ pub struct Stats {
     pub num_pages: u64,
     /// page ids of every reachable page (first page of each run) and the freelist page
     pub used_pages: Vec<u64>,
+    /// (first page, run length) of every reachable page run and the free-list page run
+    pub used_runs: Vec<(u64, u64)>,
     pub free_list: Vec<u64>,
 }
 
@@ -308,6 +310,7 @@ impl<'a> Walker<'a> {
         self.stats.reachable_pages += run;
         self.stats.overflow_pages += overflow;
         self.stats.used_pages.push(id);
+        self.stats.used_runs.push((id, run));
         if pid != id {
             self.err(format!(
                 "{}: page at position {} carries id {}",
@@ -599,6 +602,7 @@ pub fn fsck(bytes: &[u8], pagesize: u64) -> Report {
             } else if w.claim(fl, run, 3, "free-list page") {
                 w.stats.freelist_run = run;
                 w.stats.used_pages.push(fl);
+                w.stats.used_runs.push((fl, run));
                 if pid != fl {
                     w.err(format!("free-list page at position {} carries id {}", fl, pid));
                 }
